@@ -115,7 +115,7 @@ func isASCII(s string) bool {
 // classify names the class of an in-contract edit, computed from the edit and the
 // text it is applied to (used in the mirror-mismatch signature):
 //
-//	non-ascii-column  a line addressed by the range holds a non-ASCII character
+//	non-ascii-column  a non-ASCII character stands in front of an addressed column
 //	past-eof          a line number is past the last line
 //	past-eol          a character is past the end of its line
 //	in-range          none of the above
@@ -123,6 +123,9 @@ func isASCII(s string) bool {
 func classify(text string, ed edit) string {
 	if ed.Full {
 		return "full"
+	}
+	if !inContract(text, ed) {
+		return "out-of-contract"
 	}
 	lines := strings.Split(text, "\n")
 	cls := "in-range"
